@@ -160,6 +160,10 @@ def check_put(doc, steps, result_kind, fresh=None):
             r = rp.read(w, result_kind[1])
         path = rp.unparse(steps, style)
         try:
+            m.apply_jsonpath(w, path)          # read - place - read on the very same object (no stale lookups)
+        except Exception:
+            pass
+        try:
             out = ("value", m.apply_resultpath(w, r, path))
         except ex.ResultPathMatchFailure:
             out = ("unplaceable", None)
@@ -187,6 +191,19 @@ def check_put(doc, steps, result_kind, fresh=None):
         except Exception as e:
             fails.append(("put-not-serialisable:%s" % where, "%r" % e))
             continue
+        if any(isinstance(x, int) and x < 0 for x in steps):
+            continue      # negative indices are outside the Reference Path grammar: only "no crash, finite tree" is asserted
+        if True:
+            try:
+                back2 = ("value", m.apply_jsonpath(value, path))
+            except ex.PathMatchFailure:
+                back2 = ("missing", None)
+            except Exception as e:
+                back2 = ("exception", type(e).__name__)
+            # an empty container / falsy leaf placed at the path is still "there"; jsonpath cannot address into falsy roots
+            if back2[0] != "value" or not _json_equal(back2[1], result_snap):
+                if not (back2[0] == "missing" and not value):
+                    fails.append(("put-then-read:%s" % where, "after placing %r at %s into %r the engine's own reader returns %r" % (result_snap, path, snap, back2)))
         try:
             back = rp.read(value, steps)
             if not _json_equal(back, result_snap):
@@ -209,7 +226,7 @@ def check_put_root_null(doc, result):
             fails.append(("put-root-not-replace", "ResultPath '$' with input %r result %r gave %r" % (doc, result, out)))
     except Exception as e:
         fails.append(("put-root-exception:%s" % type(e).__name__, repr(e)))
-    if doc is not None:
+    if True:
         try:
             out = m.apply_resultpath(copy.deepcopy(doc), copy.deepcopy(result), None)
             if not _json_equal(out, doc):
@@ -392,7 +409,8 @@ def exhaustive_shard(k, seed, tier, nshards=1, depth=2):
                 _feed(camp, {"kind": "context", "doc": doc, "steps": steps, "other": {"a": "INPUT"}}, fails, len(steps) >= 2, ["context-read"])
         # puts: a stride of documents x all paths <= 2 (+ some of length 3) x results
         if (di // nshards + seed) % 5 == 0 or di < 200:
-            for steps in paths2[1:] + (paths3[:: 9] if di % 11 == 0 else []):
+            neg = [["a", -1], [-1], ["b c", -2], [0, -1]] if di % 4 == 0 else []
+            for steps in paths2[1:] + (paths3[:: 9] if di % 11 == 0 else []) + neg:
                 for r in results[: 2 if di >= 200 else 4]:
                     fails = check_put(doc, steps, "fresh", r)
                     _feed(camp, {"kind": "put", "doc": doc, "steps": steps, "result_kind": "fresh", "fresh": r},
